@@ -96,8 +96,35 @@ class ObjectDomain(EffectDomain):
             return None
         expr = got[1]
         if isinstance(expr, ast.Call) and dotted(expr.func) == "property" and expr.args and isinstance(expr.args[0], ast.Name):
-            return self._method(got[0], expr.args[0].id)
+            found = self._method(got[0], expr.args[0].id)
+            if found is not None:
+                return found
+            # the getter is itself made in the class body: g, s = factory(...); name = property(g, s)
+            for s_ in got[0].node.body:
+                if isinstance(s_, ast.Assign) and len(s_.targets) == 1 and isinstance(s_.targets[0], (ast.Tuple, ast.List)):
+                    names_ = [t.id if isinstance(t, ast.Name) else None for t in s_.targets[0].elts]
+                    if expr.args[0].id in names_:
+                        return ("made", got[0], s_.value, names_.index(expr.args[0].id))
+                if isinstance(s_, ast.Assign) and len(s_.targets) == 1 and isinstance(s_.targets[0], ast.Name) and s_.targets[0].id == expr.args[0].id:
+                    return ("made", got[0], s_.value, None)
         return None
+
+    def _run_getter(self, interp, getter, selfval, st, fr, **inline_kw):
+        """Run a property getter found by _property_getter on ``selfval``."""
+        if not isinstance(getter, tuple):
+            return interp.inline(getter, {}, st, fr, **inline_kw)
+        _, ci, expr, index = getter
+        out = []
+        for r in self._eval_class_expr(interp, ci, expr, st, fr):
+            if r.kind == "exc":
+                out.append(r)
+                continue
+            fn = r.value
+            if index is not None:
+                els = interp._exact_elements(fn)
+                fn = els[index] if els is not None and index < len(els) else TOP
+            out.extend(self.apply(interp, fn, [selfval], [], r.state, fr) if isinstance(fn, tuple) and fn[:1] and fn[0] in CALLABLE_TAGS else [val(TOP, r.state)])
+        return out
 
     def _class_attr_expr(self, ci, name):
         """The expression a class body (along the MRO) assigns to ``name``, when it is assigned exactly once there."""
@@ -145,7 +172,7 @@ class ObjectDomain(EffectDomain):
             return [val(st.get(key), st)]
         getter = self._property_getter(ci, attr)
         if getter is not None and interp is not None:
-            return interp.inline(getter, {}, st, fr, receiver=ci, self_value=inst)   # name = property(getter, ...): the getter runs
+            return self._run_getter(interp, getter, inst, st, fr, receiver=ci, self_value=inst)   # name = property(getter, ...): the getter runs
         f = self._method(ci, attr)
         if f is not None:
             decos = self._decorators(f)
@@ -156,7 +183,7 @@ class ObjectDomain(EffectDomain):
             return [val(("boundmethod", inst, attr), st)]
         getter = self._property_getter(ci, attr)
         if getter is not None and interp is not None:
-            return interp.inline(getter, {}, st, fr, receiver=ci, self_value=inst)   # name = property(getter, ...): the getter runs
+            return self._run_getter(interp, getter, inst, st, fr, receiver=ci, self_value=inst)   # name = property(getter, ...): the getter runs
         got = self._class_attr_expr(ci, attr)
         if got is not None and interp is not None:
             return self._eval_class_expr(interp, got[0], got[1], st, fr)
@@ -293,7 +320,7 @@ class ObjectDomain(EffectDomain):
         if root is not None:
             getter = self._property_getter(root, attr)
             if getter is not None:
-                return interp.inline(getter, {}, st, fr, receiver=root)
+                return self._run_getter(interp, getter, ("self",), st, fr, receiver=root)
             f = self._method(root, attr)
             if f is not None:
                 if self._decorators(f) & {"property", "cached_property"}:
@@ -301,7 +328,7 @@ class ObjectDomain(EffectDomain):
                 return [val(("method", attr), st)]
             getter = self._property_getter(root, attr)
             if getter is not None:
-                return interp.inline(getter, {}, st, fr, receiver=root)
+                return self._run_getter(interp, getter, ("self",), st, fr, receiver=root)
             got = self._class_attr_expr(root, attr)
             if got is not None:
                 return self._eval_class_expr(interp, got[0], got[1], st, fr)
@@ -362,7 +389,7 @@ class ObjectDomain(EffectDomain):
             return None
         getter = self._property_getter(fr.receiver, chain[1])
         if getter is not None and interp is not None:
-            return interp.inline(getter, {}, st, fr, receiver=fr.receiver)
+            return self._run_getter(interp, getter, ("self",), st, fr, receiver=fr.receiver)
         got = self._class_attr_expr(fr.receiver, chain[1])
         if got is not None:
             return self._eval_class_expr(interp, got[0], got[1], st, fr)
